@@ -65,31 +65,82 @@ def _ego():
     return st.one_of(near, far, far).map(list)
 
 
+_EGO = _ego()
+_OBJ = st.tuples(
+    GEN.fl(-120, 120),
+    GEN.fl(-120, 120),
+    GEN.fl(-3, 3),
+    GEN.yaws(),
+    GEN.qsigns(),
+    GEN.fl(-0.1, 0.1),
+    GEN.fl(-0.1, 0.1),
+    st.booleans(),
+    GEN.fl(-20, 20),
+    GEN.fl(-20, 20),
+    GEN.fl(-0.06, 0.06),
+    st.sampled_from([-1e-3, 1e-3, -1e-5, 1e-5]),
+)
+_INST = st.tuples(
+    st.sampled_from(LABELS),
+    GEN.fl(0.3, 3.0),
+    GEN.fl(0.3, 12.0),
+    GEN.fl(0.3, 4.0),
+    st.sampled_from(["rand", "rand", "small", "same", "half_turn", "near_half"]),
+    st.integers(0, 4),
+)
+_GAP = st.one_of(st.sampled_from(GAPS), st.integers(1, 200_000))
+_FAR = st.one_of(st.sampled_from(DIST), st.integers(1, 200_000))
+_PRESENCE = {k: st.tuples(*[st.integers(0, 3)] * k) for k in range(1, len(UUIDS) + 1)}
+
+
 @st.composite
 def timelines(draw, tier="quick", focus=False):
     max_n = 8 if tier == "quick" else 12
     n = draw(st.sampled_from(list(range(2 if focus else 1, max_n + 1))))
-    gap = st.one_of(st.sampled_from(GAPS), st.integers(1, 200_000))
     t0 = draw(st.integers(0, 10**7))
-    gaps = [0] + [draw(gap) for _ in range(n - 1)]
+    gaps = [0] + [draw(_GAP) for _ in range(n - 1)]
     times = []
     acc = t0
     for g in gaps:
         acc += g
         times.append(acc)
 
+    # ---- query time (by construction) ---------------------------------------------------------
+    kinds = ["before", "on", "between", "between", "after"] if not focus else ["between", "between", "between", "on"]
+    kind = draw(st.sampled_from(kinds))
+    if kind == "between" and n == 1:
+        kind = draw(st.sampled_from(["before", "after", "on"]))
+    if kind == "before":
+        qi = 0
+        q = times[0] - draw(_FAR)
+    elif kind == "after":
+        qi = n - 1
+        q = times[-1] + draw(_FAR)
+    elif kind == "on":
+        qi = draw(st.integers(0, n - 1 if not focus else n - 2))
+        q = times[qi]
+    else:
+        qi = draw(st.integers(0, n - 2))
+        g = times[qi + 1] - times[qi]
+        if g == 1:
+            q = times[qi]  # no integer strictly between
+        else:
+            off = draw(st.one_of(st.sampled_from([1, g - 1, g // 2, (g + 1) // 2]), st.integers(1, g - 1)))
+            q = times[qi] + min(max(off, 1), g - 1)
+
     # ---- objects: instances (label, size, velocity) and per-frame presence / pose --------------
     k = draw(st.sampled_from([1, 2, 3, 3, 4, 5, 6] if not focus else [2, 3, 3, 4, 5, 6]))
     pool = UUIDS[:k]
     inst = {}
     for u in pool:
-        inst[u] = {
-            "label": draw(st.sampled_from(LABELS)),
-            "size": [draw(GEN.fl(0.3, 3.0)), draw(GEN.fl(0.3, 12.0)), draw(GEN.fl(0.3, 4.0))],
-            "yaw_kind": draw(st.sampled_from(["rand", "rand", "small", "same", "half_turn", "near_half"])),
-            "tilt": draw(st.integers(0, 4)) == 0,
-        }
-    presence = [[u for u in pool if draw(st.integers(0, 3)) > 0] for _ in range(n)]
+        lab, w, l, h, yk, tilt = draw(_INST)
+        inst[u] = {"label": lab, "size": [w, l, h], "yaw_kind": yk, "tilt": tilt == 0}
+    # frames around the query are densely populated (3/4 per uuid), the others sparsely (1/4): they only matter as
+    # wrong candidates of the lookup, and every object costs ~10 draws
+    presence = []
+    for i in range(n):
+        coins = draw(_PRESENCE[k])
+        presence.append([u for u, c in zip(pool, coins) if (c > 0) == (qi - 1 <= i <= qi + 2)])
     occurrences = {u: sum(1 for fr in presence if u in fr) for u in pool}
     frame = draw(st.sampled_from(["base_link", "map"]))
     frames = []
@@ -99,52 +150,27 @@ def timelines(draw, tier="quick", focus=False):
         for u in presence[i]:
             meta = inst[u]
             yk = meta["yaw_kind"]
+            # one draw per object (strategy-level overhead dominates generation time); not every field is used
+            px, py, pz, yaw_r, qs, pitch, roll, has_vel, vx, vy, dyaw, eps = draw(_OBJ)
             if u not in last_yaw or yk == "rand":
-                yaw = draw(GEN.yaws())
+                yaw = yaw_r
             elif yk == "small":
-                yaw = G.wrap(last_yaw[u] + draw(GEN.fl(-0.06, 0.06)))
+                yaw = G.wrap(last_yaw[u] + dyaw)
             elif yk == "same":
                 yaw = last_yaw[u]
             elif yk == "half_turn":
                 yaw = G.wrap(last_yaw[u] + PI)
             else:
-                yaw = G.wrap(last_yaw[u] + PI + draw(st.sampled_from([-1e-3, 1e-3, -1e-5, 1e-5])))
+                yaw = G.wrap(last_yaw[u] + PI + eps)
             last_yaw[u] = yaw
-            o = {
-                "uuid": u,
-                "p": [draw(GEN.fl(-120, 120)), draw(GEN.fl(-120, 120)), draw(GEN.fl(-3, 3))],
-                "yaw": yaw,
-                "qs": draw(GEN.qsigns()),
-                "size": meta["size"],
-                "label": meta["label"],
-            }
+            o = {"uuid": u, "p": [px, py, pz], "yaw": yaw, "qs": qs, "size": meta["size"], "label": meta["label"]}
             if meta["tilt"]:
-                o["pr"] = [draw(GEN.fl(-0.1, 0.1)), draw(GEN.fl(-0.1, 0.1))]
+                o["pr"] = [pitch, roll]
             # P6: instances seen in several samples always have a velocity
-            if occurrences[u] >= 2 or draw(st.booleans()):
-                o["vel"] = [draw(GEN.fl(-20, 20)), draw(GEN.fl(-20, 20)), 0.0]
+            if occurrences[u] >= 2 or has_vel:
+                o["vel"] = [vx, vy, 0.0]
             objs.append(o)
-        frames.append({"gap": gaps[i], "ego": draw(_ego()), "objs": objs})
-
-    # ---- query time (by construction) ---------------------------------------------------------
-    kinds = ["before", "on", "between", "between", "after"] if not focus else ["between", "between", "between", "on"]
-    kind = draw(st.sampled_from(kinds))
-    if kind == "between" and n == 1:
-        kind = draw(st.sampled_from(["before", "after", "on"]))
-    if kind == "before":
-        q = times[0] - draw(st.one_of(st.sampled_from(DIST), st.integers(1, 200_000)))
-    elif kind == "after":
-        q = times[-1] + draw(st.one_of(st.sampled_from(DIST), st.integers(1, 200_000)))
-    elif kind == "on":
-        q = times[draw(st.integers(0, n - 1 if not focus else n - 2))]
-    else:
-        i = draw(st.integers(0, n - 2))
-        g = times[i + 1] - times[i]
-        if g == 1:
-            q = times[i]  # no integer strictly between
-        else:
-            off = draw(st.one_of(st.sampled_from([1, g - 1, g // 2, (g + 1) // 2]), st.integers(1, g - 1)))
-            q = times[i] + min(max(off, 1), g - 1)
+        frames.append({"gap": gaps[i], "ego": draw(_EGO), "objs": objs})
 
     # ---- tolerance ----------------------------------------------------------------------------
     b, a = R.neighbours(times, q)
@@ -489,12 +515,12 @@ def _check_interpolated(ctx, d, out, frames, ids, ref_pose, ib, ia, alpha, t, qc
         )
 
 
-@CHECK.given("lookup", lambda tier: timelines(tier), quick=350, thorough=24000)
+@CHECK.given("lookup", lambda tier: timelines(tier), quick=350, thorough=12000)
 def lookup(ctx, d):
     _check(ctx, d)
 
 
-@CHECK.given("interp", lambda tier: timelines(tier, focus=True), quick=300, thorough=24000)
+@CHECK.given("interp", lambda tier: timelines(tier, focus=True), quick=300, thorough=12000)
 def interp(ctx, d):
     _check(ctx, d)
 
